@@ -122,7 +122,11 @@ func runC13(r *RunCtx) error {
 		}
 		var stip sdk.AccAddress
 		stipOK := true
-		switch p.Intn(6) {
+		sel := p.Intn(6)
+		if k == 3 || k == 9 {
+			sel = 2 // (with k%3 == 0 below: the stipend is routed to the developer-grants pool)
+		}
+		switch sel {
 		case 0:
 			params.StorageStipendAddress = "not-an-address"
 			stipOK = false
@@ -133,6 +137,10 @@ func runC13(r *RunCtx) error {
 		case 2:
 			stip = Acct(77)
 			params.StorageStipendAddress = stip.String()
+			if k%3 == 0 { // the stipend routed to the developer-grants pool: one account receives both shares
+				stip, _ = mintkeeper.GetDevGrantsAccount()
+				params.StorageStipendAddress = stip.String()
+			}
 		default:
 			stip, _ = sdk.AccAddressFromBech32(params.StorageStipendAddress)
 		}
@@ -184,6 +192,32 @@ func runC13(r *RunCtx) error {
 				break
 			}
 			post := c13Observe(e, eff, stip, h)
+			devAcct, _ := mintkeeper.GetDevGrantsAccount()
+			sameReceiver := stip != nil && stip.Equals(devAcct)
+			if sameReceiver {
+				// the model keeps the three receivers apart; for one account receiving two shares only the monitors apply
+				em := post.Supply - pre.Supply
+				fl := func(ratio int64) int64 {
+					return new(big.Int).Div(new(big.Int).Mul(big.NewInt(ratio), big.NewInt(em)), big.NewInt(100)).Int64()
+				}
+				r.Hist("ratios", "stipend-is-dev-pool")
+				if inQuant {
+					tr := map[string]interface{}{"run": k, "block": b, "height": h, "params": params, "pre": pre, "post": post}
+					if post.Dev-pre.Dev != fl(rt.d)+fl(rt.p) || post.Fee-pre.Fee != fl(rt.s) {
+						r.Finding("C13/split-wrong", fmt.Sprintf("stipend address = developer-grants pool: of emission %d it received %d, expected %d + %d; stakers %d, expected %d", em, post.Dev-pre.Dev, fl(rt.d), fl(rt.p), post.Fee-pre.Fee, fl(rt.s)), tr)
+					}
+					kept := post.Mod - pre.Mod
+					if slack := 100*kept - em*(100-rt.s-rt.d-rt.p); kept != em-fl(rt.s)-fl(rt.d)-fl(rt.p) || slack < 0 || slack >= 300 {
+						r.Finding("C13/module-remainder", fmt.Sprintf("stipend address = developer-grants pool: the mint module keeps %d of emission %d", kept, em), tr)
+					}
+					if em > lastEm || em < 0 {
+						r.Finding("C13/emission-increased", fmt.Sprintf("emission %d after %d", em, lastEm), tr)
+					}
+					lastEm = em
+				}
+				h++
+				continue
+			}
 			term := fmt.Sprintf("Block {| tokens_per_block := %s; mint_decrease := %s; staker_ratio := %s; dev_ratio := %s; prov_ratio := %s; stipend_ok := %s |} %s %s %s %s %s %s %s %s %s %s %s %s",
 				cZ(params.TokensPerBlock), cZ(params.MintDecrease), cZ(rt.s), cZ(rt.d), cZ(rt.p), cBool(stipOK),
 				cZ(pre.Fee), cZ(pre.Dev), cZ(pre.Stip), cZ(pre.Mod), cZ(pre.Supply), cOptZ(pre.Rec),
@@ -301,11 +335,26 @@ func c13UpgradeChains(r *RunCtx) error {
 			e.Close()
 			return fmt.Errorf("C13: scheduling the upgrade: %w", err)
 		}
+		// a passed ParameterChangeProposal changes the split in the middle of the run (written by gov's end blocker
+		// through the subspace, then committed with the block): every later block must split by the stored values
+		changeAt := e.Height + int64(1+p.Intn(before+after-1))
+		newRatios := PickOne(p, [][3]int64{{50, 25, 25}, {0, 0, 100}, {10, 60, 5}, {80, 8, 12}})
+		mss, _ := c15ParamsKeeper(e).GetSubspace(minttypes.ModuleName)
+		devAcct, _ := mintkeeper.GetDevGrantsAccount()
+		stipAcct, _ := sdk.AccAddressFromBech32(params.StorageStipendAddress)
 		lastEm := int64(-1)
 		halted := false
 		trace := []map[string]interface{}{}
 		for b := 0; b < before+after; b++ {
 			s0 := e.Supply("ujkl")
+			if e.Height == changeAt {
+				q := func(v int64) []byte { return []byte(fmt.Sprintf("%q", fmt.Sprint(v))) }
+				_ = mss.Update(e.Ctx, minttypes.KeyStakerRatio, q(newRatios[0]))
+				_ = mss.Update(e.Ctx, minttypes.KeyDevGrants, q(newRatios[1]))
+				_ = mss.Update(e.Ctx, minttypes.KeyProviderRatio, q(newRatios[2]))
+				r.Hist("upgrade-chain", "ratios-changed-by-governance")
+			}
+			dev0, stip0 := e.Bal(devAcct, "ujkl"), e.Bal(stipAcct, "ujkl")
 			if e.Height+1 == upAt { // the node operators switch to the new binary for this block: only it knows the handler
 				uk.SetUpgradeHandler("verif-next", func(ctx sdk.Context, _ upgradetypes.Plan, fromVM module.VersionMap) (module.VersionMap, error) {
 					return mm.RunMigrations(ctx, cfg, fromVM)
@@ -338,6 +387,22 @@ func c13UpgradeChains(r *RunCtx) error {
 			}
 			if rec == nil || *rec != em {
 				bad("C13/record-mismatch", "MintedBlock of the block differs from the supply growth")
+			}
+			// the split of this block's emission, by the values the parameter store holds now
+			var dr, pr int64
+			mss.Get(e.Ctx, minttypes.KeyDevGrants, &dr)
+			mss.Get(e.Ctx, minttypes.KeyProviderRatio, &pr)
+			fl := func(ratio int64) int64 {
+				return new(big.Int).Div(new(big.Int).Mul(big.NewInt(ratio), big.NewInt(em)), big.NewInt(100)).Int64()
+			}
+			desc["dev_ratio"], desc["provider_ratio"] = dr, pr
+			if !stipAcct.Equals(devAcct) {
+				if d := e.Bal(devAcct, "ujkl") - dev0; d != fl(dr) {
+					bad("C13/split-wrong", fmt.Sprintf("developer grants received %d of emission %d at height %d, the stored ratio %d%% gives %d", d, em, e.Height, dr, fl(dr)))
+				}
+				if d := e.Bal(stipAcct, "ujkl") - stip0; d != fl(pr) {
+					bad("C13/split-wrong", fmt.Sprintf("the storage stipend address received %d of emission %d at height %d, the stored ratio %d%% gives %d", d, em, e.Height, pr, fl(pr)))
+				}
 			}
 			if lastEm >= 0 {
 				r.Case("mint", fmt.Sprintf("MintFn %s %s %s %s", cZ(lastEm), cZ(c13Bpy), cZ(params.MintDecrease), cZ(em)), desc)
